@@ -329,9 +329,19 @@ class SMUserList(UserList, ABC):
     def __add__(self, other):
         # list concatenation (inherited from UserList) only makes sense for
         # objects of the same class
-        if isinstance(other, UserList) and type(other) != type(self):
+        if type(other) != type(self):
             raise TypeError("can't concatenate objects of different classes")
         return super().__add__(other)
+
+    def __iadd__(self, other):
+        # ``x += y`` is ``x = x + y`` as defined by the class, not the
+        # list extension inherited from UserList
+        return self.__add__(other)
+
+    def __imul__(self, other):
+        # ``x *= y`` is ``x = x * y`` as defined by the class, not the
+        # list repetition inherited from UserList
+        return self.__mul__(other)
 
     def __radd__(self, other):
         # plain list + object would concatenate the list with the internal data
